@@ -24,7 +24,21 @@ fn def_of(kind: &str) -> &'static str {
     }
 }
 
-fn use_of(pos: &str, r: &str) -> String {
+fn use_of(pos: &str, r: &str, own: bool) -> String {
+    if own {
+        // the member that holds the reference (and the operation / an enumerator) is itself named T
+        return match pos {
+            "field" => format!("struct Use {{ T: {r} }}\n"),
+            "param" => format!("interface Use {{ T(T: {r}) }}\n"),
+            "return" => format!("interface Use {{ T() -> {r} }}\n"),
+            "elem" => format!("struct Use {{ T: Sequence<{r}> }}\n"),
+            "key" => format!("struct Use {{ T: Dictionary<{r}, bool> }}\n"),
+            "value" => format!("struct Use {{ T: Dictionary<string, {r}> }}\n"),
+            "resarm" => format!("struct Use {{ T: Result<bool, {r}> }}\n"),
+            "underlying" => format!("enum Use : {r} {{ T }}\n"),
+            _ => use_of(pos, r, false),
+        };
+    }
     match pos {
         "field" => format!("struct Use {{ f: {r} }}\n"),
         "param" => format!("interface IUse {{ op(p: {r}) }}\n"),
@@ -97,7 +111,7 @@ impl Family for Scope {
         for r in &ref_cases {
             let written = format!("{}{}", if r["global"] == true { "::" } else { "" }, strs(&r["segs"]).join("::"));
             let scope = strs(&r["scope"]).join("::");
-            files.push(format!("module {scope}\n{}", use_of(pos, &written)));
+            files.push(format!("module {scope}\n{}", use_of(pos, &written, case["own"] == true)));
             ref_files.push(files.len() - 1);
         }
         if case["rev"] == true {
@@ -188,16 +202,20 @@ impl Family for AliasChain {
         };
         let mut texts = [String::from("module M\nstruct S {}\nenum E { X }\ncustom C\n"), String::from("module N\nstruct S {}\nenum E { X }\ncustom C\n")];
         let mod_of = |i: usize| -> &str { chain[i]["mod"].as_str().unwrap_or("M") };
+        // layout: every link and the use site carry their own directive (x::a0, x::a1, ..), or all of them the same one
+        // (x::a) with different arguments - what is accumulated is every written attribute, not one per directive
+        let same_directive = hash_str(&case["chain"].to_string()) % 2 == 0;
+        let dir = |i: usize| -> String { if same_directive { "x::a".to_owned() } else { format!("x::a{i}") } };
         let spell = |from: &str, j: usize| -> String {
             if mod_of(j - 1) == from { format!("L{j}") } else { format!("::{}::L{j}", mod_of(j - 1)) }
         };
         for (i, link) in chain.iter().enumerate() {
             let next = link["next"].as_u64().unwrap_or(0) as usize;
             let target = if next == 0 { term_text.to_owned() } else { spell(mod_of(i), next) };
-            let attr = if link["attr"] == true { format!("[x::a{}(\"v{}\")] ", i + 1, i + 1) } else { String::new() };
+            let attr = if link["attr"] == true { format!("[{}(\"v{}\")] ", dir(i + 1), i + 1) } else { String::new() };
             texts[if mod_of(i) == "M" { 0 } else { 1 }].push_str(&format!("typealias L{} = {}{}\n", i + 1, attr, target));
         }
-        texts[0].push_str(&format!("struct Use {{ f: [x::a0] {}? }}\n", spell("M", 1)));
+        texts[0].push_str(&format!("struct Use {{ f: [{}] {}? }}\n", dir(0), spell("M", 1)));
         let rendered = json!({"files": texts});
         let key = hash_str(&rendered.to_string());
         let state = slicec::compile_from_strings(&[&texts[0], &texts[1]], None);
@@ -217,9 +235,9 @@ impl Family for AliasChain {
         let expect = &case["expect"];
         let tmod = expect["tmod"].as_str().unwrap_or("M").to_owned();
         let fail = if expect["res"] == "bound" {
-            let mut attrs = vec![json!({"d": "x::a0", "args": []})];
+            let mut attrs = vec![json!({"d": dir(0), "args": []})];
             for i in expect["attrs"].as_array().cloned().unwrap_or_default() {
-                attrs.push(json!({"d": format!("x::a{i}"), "args": [format!("v{i}")]}));
+                attrs.push(json!({"d": dir(i.as_u64().unwrap_or(0) as usize), "args": [format!("v{i}")]}));
             }
             let t = match term {
                 "int32" => json!({"f": "prim", "n": "int32"}),
